@@ -258,6 +258,7 @@ namespace plan
         }
         edges[&a].push_back(t);
         unif_edges.insert({&a, t});
+        unified_pairs.push_back({&a, t});
       }
     }
     // any cycle in (sub-goal edges + unification edges) necessarily passes through a unification edge
